@@ -287,10 +287,70 @@ func runC15(e *Engine, tier Tier) *PropRun {
 	stmtIface := astPkg.Pkg.Scope().Lookup("Statement").Type().Underlying().(*types.Interface)
 	opts := &VCOpts{InlineDepth: 0}
 	want := map[string]bool{"gosqlx.(*tableCollector).collectFromNode": true, "gosqlx.(*qualifiedTableCollector).collectFromNode": true}
-	fns := e.sourceFns(func(fn *ssa.Function, file string) bool { return want[fnKey(fn)] })
-	nOb := 0
+	// the three other collectors are under the descends clause only
+	descendOnly := map[string]bool{"gosqlx.(*columnCollector).collectFromNode": true, "gosqlx.(*qualifiedColumnCollector).collectFromNode": true, "gosqlx.(*functionCollector).collectFromNode": true}
+	fns := e.sourceFns(func(fn *ssa.Function, file string) bool { return want[fnKey(fn)] || descendOnly[fnKey(fn)] })
+	nOb, nDesc := 0, 0
 	post := func(fr *Frame, q *Query) {
 		fn := fr.fn
+		// descends: whatever case of the type switch was taken, a non-nil node's children are handed to the collector
+		// again - the loop ranging over node.Children() whose body calls this function with the element is reached on
+		// every returning path. (This is what lets the table positions of nested statements, join conditions and
+		// sub-queries be decided by the per-statement clauses below together with C14.)
+		if len(fn.Params) == 2 {
+			nodeP := fn.Params[1]
+			var hdrReach string
+			found := false
+			for _, b := range fn.Blocks {
+				for _, ins := range b.Instrs {
+					c, ok := ins.(*ssa.Call)
+					if !ok || c.Call.StaticCallee() != fn || len(c.Call.Args) != 2 {
+						continue
+					}
+					ld, ok := c.Call.Args[1].(*ssa.UnOp)
+					if !ok {
+						continue
+					}
+					ia, ok := ld.X.(*ssa.IndexAddr)
+					if !ok {
+						continue
+					}
+					src, ok := ia.X.(*ssa.Call)
+					if !ok || !src.Call.IsInvoke() || src.Call.Method.Name() != "Children" || src.Call.Value != ssa.Value(nodeP) {
+						continue
+					}
+					if li := fr.loopOf(b); li != nil {
+						found = true
+						hdrReach = fr.blockReach[li.header]
+					}
+				}
+			}
+			nonNil := "true"
+			env := newSpecEnv(fr, fn)
+			env.st, env.old = fr.entry, fr.entry
+			if v, ok := fr.vals[nodeP]; ok {
+				env.names["node"] = SV{T: nodeP.Type(), V: v}
+				if c, err := parseClause("node != nil"); err == nil {
+					if tt, err := env.evalBool(c.Expr); err == nil {
+						nonNil = tt
+					}
+				}
+			}
+			if !found || hdrReach == "" {
+				nDesc++
+				q.obls = append(q.obls, &Obligation{Name: fnKey(fn) + "/schema/descends(node.Children())", Kind: "schema", Fn: fnKey(fn), Pos: e.posString(fn.Pos()), Guard: "true", Cond: "false",
+					Desc: "no loop over node.Children() that hands each child to the collector", AssertIdx: len(q.asserts)})
+			} else {
+				for _, ret := range fr.rets {
+					nDesc++
+					o := q.addObligation(fr, "schema", "descends(node.Children())", ret.ins.Pos(), ret.reach, sImp(nonNil, hdrReach))
+					o.Desc = "descends"
+				}
+			}
+		}
+		if !want[fnKey(fn)] {
+			return
+		}
 		handled := map[string]ssa.Value{}
 		guard := map[string]string{}
 		for _, b := range fn.Blocks {
@@ -454,9 +514,9 @@ func runC15(e *Engine, tier Tier) *PropRun {
 	return &PropRun{
 		Results: rs, FUC: fucList(rs),
 		Claim:       func(o *Obligation) bool { return o.Kind == "schema" },
-		Explanation: "Table part of the property. The table positions are enumerated from go/types by rule (spec table): every field of a statement type that is a TableName string, a TableReference, a []TableReference, or the Right side of a []JoinClause; JoinClause.Left is excluded because for joins after the first the parser stores a synthesised name there. For both table collectors (plain and qualified) and every position: the collector's type switch has a case for the statement type, and on every returning path through that case a store into the table set (or addTable call) whose key is read from that position is reached (slices: the loop ranging over the field is entered). Nested statements are reached through the generic Children() recursion, which C14 decides.",
-		NotCovered:  []string{"column and function extraction (own(T) cases of the three other collectors: not built)", "that nothing else is inserted (aliases, synthesised names): only the positive direction is decided", "duplicate-freedom (results are map key sets, by construction)", "qualifier splitting in addTable"},
+		Explanation: "Table part of the property. The table positions are enumerated from go/types by rule (spec table): every field of a statement type that is a TableName string, a TableReference, a []TableReference, or the Right side of a []JoinClause; JoinClause.Left is excluded because for joins after the first the parser stores a synthesised name there. For both table collectors (plain and qualified) and every position: the collector's type switch has a case for the statement type, and on every returning path through that case a store into the table set (or addTable call) whose key is read from that position is reached (slices: the loop ranging over the field is entered). Nested statements, join conditions and sub-queries are reached through the generic recursion: for all five collectors (tables, qualified tables, columns, qualified columns, functions) and every returning path of collectFromNode with a non-nil node - whichever case of the type switch was taken - the loop that ranges over node.Children() and hands each child to the collector again is reached (descends clause); that Children() returns every child is what C14 decides.",
+		NotCovered:  []string{"which names the column and function collectors store (own(T) cases of the three other collectors: not built; only their descent is under contract)", "a case that handles all of its node's children itself and returns early would satisfy the property but not the descends clause (sufficient condition; no such case exists)", "that nothing else is inserted (aliases, synthesised names): only the positive direction is decided", "duplicate-freedom (results are map key sets, by construction)", "qualifier splitting in addTable"},
 		Assumptions: []string{"range-over-whole-slice template as in C14", "C14: Children() returns every child, so the recursion reaches nested statements"},
-		Extra:       map[string]any{"table_position_obligations": nOb},
+		Extra:       map[string]any{"table_position_obligations": nOb, "descends_obligations": nDesc},
 	}
 }
